@@ -2,7 +2,7 @@
    list at the cursor (its need never exceeds unused + quota), in cyclic order slave 0 .. slave k-1,
    root; hence every slave list is served within k+1 consecutive ticks. *)
 From Coq Require Import List NArith Bool Lia PeanoNat.
-From LTV.C12 Require Import ParamsGen.
+From LTV.C12 Require Import ParamsGen PolicyGen.
 From LTV.C12 Require Import Model ProofsA ProofsB ProofsC ProofsD ProofsE.
 Import ListNotations.
 Local Open Scope N_scope.
